@@ -45,7 +45,12 @@ ChainDescs == << <<"chain", <<3>>, <<2, 3>>, <<2, 2, 3>>>>, <<"chain", <<1, 2>>,
                  <<"chain", <<3>>, <<1, 3>>, <<1, 1, 3>>>>, <<"chain", <<>>, <<2>>, <<3, 2>>>>,
                  <<"chainadd", <<3>>, <<2, 3>>, <<2, 2, 3>>>>, <<"chainadd", <<2, 1>>, <<2, 3>>, <<2, 2, 3>>>>, <<"chainadd", <<3>>, <<1, 3>>, <<4, 1, 3>>>>,
                  <<"fan", <<3>>, <<2, 3>>>>, <<"fan", <<1, 2>>, <<3, 2>>>>, <<"fan", <<3>>, <<1, 3>>>>, <<"fan", <<2, 1>>, <<3, 2, 2>>>> >>
-All == ChainDescs \o BigAr \o BigBc \o BcastDescs \o (IF Thorough THEN ArithAll ELSE ArithDescs) \o DotDescs \o MMDescs
+(* two expansions whose (source, target) shape pairs collide under the usual cache-key folds (decimal digits without a   *)
+(* separator, base-B sums), in ONE graph - the replays run in separate processes, so two cases cannot meet in a cache    *)
+PairBcDescs == << <<"pairbc", <<1, 11>>, <<11, 11>>, <<11, 1>>, <<11, 11>>>>, <<"pairbc", <<12>>, <<1, 2, 12>>, <<1, 2>>, <<12, 1, 2>>>>,
+                  <<"pairbc", <<1, 1>>, <<2, 11>>, <<11>>, <<2, 11>>>>, <<"pairbc", <<2, 1>>, <<2, 3>>, <<1, 32>>, <<2, 32>>>>,
+                  <<"pairbc", <<1, 2>>, <<3, 2>>, <<33, 1>>, <<33, 2>>>> >>
+All == PairBcDescs \o ChainDescs \o BigAr \o BigBc \o BcastDescs \o (IF Thorough THEN ArithAll ELSE ArithDescs) \o DotDescs \o MMDescs
 Descs == MyCases(All)
 
 WithG(name, ins, doms, op, par, ydims) ==
@@ -57,7 +62,13 @@ WithG(name, ins, doms, op, par, ydims) ==
 YDims(op, par, dimsSeq) == OpApply(op, par, [k \in DOMAIN dimsSeq |-> SymT("t", dimsSeq[k])]).dims
 
 Build(d) ==
-  CASE d[1] = "chain" ->
+  CASE d[1] = "pairbc" ->
+         LET r1 == Len(d[3])  r2 == Len(d[5])
+             code == <<Ins("broadcast", [shape |-> d[3]], <<1>>), Ins("broadcast", [shape |-> d[5]], <<2>>),
+                       Ins("flatten", [dim |-> 0], <<3>>), Ins("sumalong", [dim |-> 0], <<5>>),
+                       Ins("flatten", [dim |-> 0], <<4>>), Ins("sumalong", [dim |-> 0], <<7>>), Ins("add", NoPar, <<6, 8>>)>>
+         IN MkCaseD("c07", "two-broadcasts", <<In("a", d[2], TRUE), In("b", d[4], TRUE)>>, <<"any,distinct", "any,distinct">>, code, <<3, 4>>, 9, FALSE)
+    [] d[1] = "chain" ->
          MkCaseD("c07", "broadcast-of-broadcast", <<In("a", d[2], TRUE), In("g", d[4], FALSE)>>, <<"any", "any">>,
                  <<Ins("broadcast", [shape |-> d[3]], <<1>>), Ins("broadcast", [shape |-> d[4]], <<3>>), Ins("mul", NoPar, <<4, 2>>)>>, <<3, 4>>, 5, FALSE)
     [] d[1] = "chainadd" ->
